@@ -172,9 +172,10 @@ MaxLen(G) == CHOOSE n \in 0..N : (\E g \in G : Cardinality(g) = n) /\ (\A g \in 
 Written(t) == UNION t.groups
               \cup (IF AS_CODED_PAD /\ (\E g \in t.groups : Cardinality(g) < MaxLen(t.groups)) THEN {LastRow} ELSE {})
 RECURSIVE Apply(_, _, _)
+\* (as coded: a trainable whose column was dropped by delete_channel is dangling and is ignored)
 Apply(k, vec, i) == IF i > Len(trains) THEN vec
                     ELSE LET t == trains[i] IN
-                         Apply(k, IF t.key = k THEN [r \in Rows |-> IF r \in Written(t) THEN t.val ELSE vec[r]] ELSE vec, i + 1)
+                         Apply(k, IF t.key = k /\ k \in colset THEN [r \in Rows |-> IF r \in Written(t) THEN t.val ELSE vec[r]] ELSE vec, i + 1)
 Eff(k) == Apply(k, col[k], 1)                       \* EffParam / EffState
 \* C05: the simulated value of row r IS the value of group G of trainable i exactly on these rows, so the
 \* gradient with respect to that shared value is the SUM of the per-row gradients over DEff(i, G) and nothing
@@ -184,7 +185,7 @@ DEff(i, G) == {r \in G : \A j \in (i + 1)..Len(trains) : trains[j].key # trains[
 \* write_trainables(get_parameters()): the tables now store exactly the values that are simulated
 WriteTrainables ==
   /\ Tick
-  /\ col' = [k \in Keys |-> IF \E i \in DOMAIN trains : trains[i].key = k THEN Eff(k) ELSE col[k]]
+  /\ col' = [k \in Keys |-> IF k \in colset /\ \E i \in DOMAIN trains : trains[i].key = k THEN Eff(k) ELSE col[k]]
   /\ UNCHANGED <<has, colset, reg, curs, groups, recs, ext, nin, trains>>
 
 (* -------------------------------- groups -------------------------------- *)
@@ -251,7 +252,7 @@ TrainablesTouchOnlyTheirRows ==
   \A k \in Keys : \A r \in Rows :
      (\A i \in DOMAIN trains : trains[i].key = k => r \notin UNION trains[i].groups) => Eff(k)[r] = col[k][r]
 TrainablesReachTheirRows ==
-  \A i \in DOMAIN trains : \A r \in UNION trains[i].groups :
+  \A i \in {j \in DOMAIN trains : trains[j].key \in colset} : \A r \in UNION trains[i].groups :
      (\A j \in (i + 1)..Len(trains) : trains[j].key # trains[i].key \/ r \notin Written(trains[j]))
         => Eff(trains[i].key)[r] = trains[i].val
 \* insert followed by delete_channel through the same view restores every table (C19: deletions undo insertions)
